@@ -38,6 +38,7 @@ type Options struct {
 	InterimDuration uint32
 	MaxCandidates   int // 0: production value (20)
 	DeputyCount     int // configured maximum number of deputies (0: 17)
+	Funding         []int64 // whole LEMO per user in block 1 (nil: Funding)
 }
 
 // NewScenario builds the world (d deputies, len(Funding) users), both nodes, and mines + validates the funding block.
@@ -60,7 +61,11 @@ func NewScenarioWith(o Options) *Scenario {
 		o.DeputyCount = 17
 	}
 	d, weights := o.Deputies, o.Weights
-	w := NewWorld("w", d, len(Funding))
+	funding := o.Funding
+	if funding == nil {
+		funding = Funding
+	}
+	w := NewWorld("w", d, len(funding))
 	s := &Scenario{W: w, Gen: NewTxGen(w, weights), Offered: map[common.Hash][]*GenTx{}, Addrs: map[common.Address]bool{}, Packaged: map[common.Hash]bool{}}
 	s.F = NewNode(w, w.Deputies[0], o.DeputyCount)
 	s.V = NewNode(w, nil, o.DeputyCount)
@@ -70,7 +75,7 @@ func NewScenarioWith(o Options) *Scenario {
 	var txs types.Transactions
 	exp := uint64(T0 + 1000)
 	for i, u := range w.Users {
-		txs = append(txs, Transfer(w.Founder, u.Addr, Lemo(Funding[i]), exp))
+		txs = append(txs, Transfer(w.Founder, u.Addr, Lemo(funding[i]), exp))
 	}
 	b := s.F.MineNext(s.F.Genesis, txs)
 	if len(b.Txs) != len(txs) {
